@@ -35,7 +35,7 @@ func init() {
 			steps, _, _ := drive.ParseTrace(c.Lines, out)
 			return drive.Switches(steps) > 0
 		},
-		Rule:     "a case = thread programs (Push/Pop/Len calls) + a schedule of atomic steps executed on the real sync_list.go under the deterministic scheduler; non-trivial = at least one context switch while the thread switched away from is inside a call; distinct by hash of programs+schedule",
+		Rule:     "a case = thread programs (Push/Pop/Len/PopWait(-1)/PopWait(0) calls) + a schedule of atomic steps executed on the real sync_list.go under the deterministic scheduler; non-trivial = at least one context switch while the thread switched away from is inside a call; distinct by hash of programs+schedule",
 		Classify: classify,
 		Facts:    facts,
 		Extras:   []core.Extra{raceExtra},
@@ -43,7 +43,7 @@ func init() {
 		Assumptions: []string{
 			"sync/atomic operations are sequentially consistent and DRF-SC holds (Go memory model)",
 			"a freshly allocated node is private to its allocating goroutine until the link CAS publishes it",
-			"PopWait with a positive duration (ticker) is not scheduled; PopWait(<0) is Pop in a Gosched loop",
+			"PopWait(d<0) (Pop in a Gosched loop) and PopWait(0) (one Pop) are modelled and scheduled; PopWait with a positive duration (time.Ticker, wall clock) is neither modelled nor scheduled, only run under the race detector",
 			"Go int / int64 treated as unbounded",
 		},
 		TrustedBase: []string{
@@ -97,7 +97,11 @@ func check(c core.Case, out []string) *core.Failure {
 	for _, a := range anomalies {
 		switch {
 		case a == "drain-timeout":
-			return &core.Failure{Key: "push-stuck", Desc: "round-robin scheduling of all threads did not complete every call (a Push, or a PopWait(<0) for which the generator guarantees a value) within " + strconv.Itoa(drive.DrainRounds) + " rounds"}
+			key := "push-stuck"
+			if strings.Contains(c.Lines[0], " w") || strings.Contains(c.Lines[0], " z") {
+				key = "call-stuck" // a Push or a PopWait did not return
+			}
+			return &core.Failure{Key: key, Desc: "round-robin scheduling of all threads did not complete every call (a Push, or a PopWait(<0) for which the generator guarantees a value) within " + strconv.Itoa(drive.DrainRounds) + " rounds"}
 		case a == "final-panic":
 			return &core.Failure{Key: "panic", Desc: "popping the remaining values from the quiescent list panicked"}
 		case a == "hang":
